@@ -64,9 +64,8 @@ Fixpoint ks_loop (sh : list Z) (c d : Z) : list Z :=
       k0 :: k1 :: ks_loop sh' c2 d2
   end.
 
-Definition set_key (key : list Z) : list Z :=
-  let c := c2l (nth 0 key 0) (nth 1 key 0) (nth 2 key 0) (nth 3 key 0) in
-  let d := c2l (nth 4 key 0) (nth 5 key 0) (nth 6 key 0) (nth 7 key 0) in
+(* desSetKey up to the loop: the two 28-bit halves out of the two key words *)
+Definition pc1_net (c d : Z) : Z * Z :=
   let '(d, c) := PermOp d c 4 252645135 in
   let c := HPermOp c (-2) 3435921408 in
   let d := HPermOp d (-2) 3435921408 in
@@ -76,7 +75,13 @@ Definition set_key (key : list Z) : list Z :=
   let d := Z.lor (Z.lor (Z.lor (shl32 (Z.land d 255) 16) (Z.land d 65280)) (shr (Z.land d 16711680) 16))
                  (shr (Z.land c 4026531840) 4) in
   let c := Z.land c 268435455 in
-  ks_loop shifts2 c d.
+  (c, d).
+Definition pc1_words (key : list Z) : Z * Z :=
+  pc1_net (c2l (nth 0 key 0) (nth 1 key 0) (nth 2 key 0) (nth 3 key 0))
+          (c2l (nth 4 key 0) (nth 5 key 0) (nth 6 key 0) (nth 7 key 0)).
+
+Definition set_key (key : list Z) : list Z :=
+  let '(c, d) := pc1_words key in ks_loop shifts2 c d.
 
 (* dEncrypt with s[S], s[S+1] passed as k0, k1; returns the new L *)
 Definition d_encrypt (L R E0 E1 k0 k1 : Z) : Z :=
@@ -113,8 +118,8 @@ Fixpoint iterate (n : nat) (ks : list Z) (E0 E1 l r : Z) : Z * Z :=
   | S n' => let '(l', r') := rounds ks E0 E1 l r in iterate n' ks E0 E1 r' l'
   end.
 
-Definition body (ks : list Z) (E0 E1 : Z) : Z * Z :=
-  let '(l, r) := iterate 25 ks E0 E1 0 0 in
+(* body after the 25 iterations: undo the rotation, final permutation *)
+Definition final_perm (l r : Z) : Z * Z :=
   let t := r in
   let r := Z.lor (shr l 1) (shl32 l 31) in
   let l := Z.lor (shr t 1) (shl32 t 31) in
@@ -126,6 +131,9 @@ Definition body (ks : list Z) (E0 E1 : Z) : Z * Z :=
   let '(l, r) := PermOp l r 16 65535 in
   let '(r, l) := PermOp r l 4 252645135 in
   (l, r).
+
+Definition body (ks : list Z) (E0 E1 : Z) : Z * Z :=
+  let '(l, r) := iterate 25 ks E0 E1 0 0 in final_perm l r.
 
 (* the output loop of cFcrypt: 11 characters of 6 bits each out of bb[0..8], MSB first; state (y, u) *)
 Fixpoint enc6 (j : nat) (bb : list Z) (y : nat) (u c : Z) : Z * nat * Z :=
